@@ -291,7 +291,7 @@ def inline_pool():
 _RUN_NO = [0]
 
 
-def run_tuner(direction, grid, table, n_trials, inline=True, do_resolve=True):
+def run_tuner(direction, grid, table, n_trials, inline=True, do_resolve=True, warm=False):
     """drive the real HyperTuner.execute (and resolve) with a scripted optimizer; returns everything observable."""
     subgrids = [grid] if isinstance(grid, dict) else list(grid)
     points = own_points(subgrids)
@@ -306,6 +306,15 @@ def run_tuner(direction, grid, table, n_trials, inline=True, do_resolve=True):
     tuner = HyperTuner(opt, grid)
     task = make_task(direction)
     out = {"points": [canon(p) for p in points], "n": n_trials, "dir": direction}
+    if warm and inline:
+        # the tuner has already tuned this optimizer once (other direction, one trial): what it reports now is about THIS execute only
+        try:
+            with inline_pool():
+                tuner.execute(task=make_task("max" if direction == "min" else "min"), n_trials=1)
+        except Exception:  # noqa
+            pass
+        opt.events = []
+        opt.counter = Counter()       # the scripted optimizer's own trial counters belong to the harness, not to the tuner
     try:
         if inline:
             with inline_pool():
@@ -448,7 +457,10 @@ def execute_request(o):
 def _inline_job(job):
     direction, rows, n = job
     grid = {"p": list(range(len(rows)))}
-    return run_tuner(direction, grid, rows, n, inline=True, do_resolve=True)
+    # one case in six: the same HyperTuner object has already executed once
+    import zlib
+    warm = (zlib.crc32(repr((direction, rows, n)).encode()) % 6) == 0
+    return run_tuner(direction, grid, rows, n, inline=True, do_resolve=True, warm=warm)
 
 
 def enum_tables(ctx):
